@@ -10,12 +10,13 @@ From V Require Import Scan.ScanModel Run.RunLoop Match.Adjudicate.
 Import ListNotations.
 Open Scope Z_scope.
 
-Inductive cond := EqLine (k : Z) | GtLine (k : Z) | IsLast | Yes | No.
-Inductive act := AStop | ASkip | AAdv (n : Z) | APush (i : Z).
+Inductive cond := EqLine (k : Z) | GtLine (k : Z) | IsLast | Yes | No | IsValid | IsFailed.
+Inductive act := AStop | ASkip | AAdv (n : Z) | APush (i : Z) | AFail | AFailStop.
 Inductive comp := CAct (a : act) | CWhen (c : cond) (nocontrib : bool) (a : act) | CCond (c : cond).
 
 (** what the match part owns: the pushes made so far (stack id, line number) and Matcher.skip *)
-Record mx := mkMx { log : list (Z * Z); skipf : bool }.
+(** ... the verdict CsvPath.is_valid and the lines on which a fail()/fail_and_stop() executed *)
+Record mx := mkMx { log : list (Z * Z); skipf : bool; valid : bool; fails : list Z }.
 Definition cst := rs mx.
 
 Definition with_x (s : cst) (x' : mx) : cst :=
@@ -26,7 +27,7 @@ Definition with_frozen (s : cst) (b : bool) : cst :=
   mkRs mx (pln mx s) (scan_count mx s) (match_count mx s) (cur_mc mx s) (adv mx s) (stopped mx s) b (x mx s).
 
 Definition skp (s : cst) : bool := skipf (x mx s).
-Definition clear_skip (s : cst) : cst := with_x s (mkMx (log (x mx s)) false).
+Definition clear_skip (s : cst) : cst := with_x s (mkMx (log (x mx s)) false (valid (x mx s)) (fails (x mx s))).
 
 Section Ctl.
   Variable c : cfg.
@@ -44,16 +45,28 @@ Section Ctl.
            | Yes => true
            | No => false
            | IsLast => true
+           | IsValid => valid (x mx s)
+           | IsFailed => negb (valid (x mx s))
            end
     end.
 
+  Definition fail_now (s : cst) : cst :=
+    with_x s (mkMx (log (x mx s)) (skipf (x mx s)) false (fails (x mx s) ++ [pln mx s])).
+
+  (** fail() overrides a frozen path (Fail.override_frozen); every other function is a no-op on it *)
   Definition do_act (a : act) (s : cst) : cst :=
-    if frozen mx s then s else
     match a with
-    | AStop => set_stopped mx s
-    | ASkip => with_x s (mkMx (log (x mx s)) true)
-    | AAdv n => with_adv s n
-    | APush i => with_x s (mkMx (log (x mx s) ++ [(i, pln mx s)]) (skipf (x mx s)))
+    | AFail => fail_now s
+    | _ =>
+      if frozen mx s then s else
+      match a with
+      | AStop => set_stopped mx s
+      | ASkip => with_x s (mkMx (log (x mx s)) true (valid (x mx s)) (fails (x mx s)))
+      | AAdv n => with_adv s n
+      | APush i => with_x s (mkMx (log (x mx s) ++ [(i, pln mx s)]) (skipf (x mx s)) (valid (x mx s)) (fails (x mx s)))
+      | AFailStop => fail_now (set_stopped mx s)
+      | AFail => s
+      end
     end.
 
   Definition eval (cm : comp) (s : cst) : cst * bool :=
@@ -87,4 +100,4 @@ Definition recs_of (bl : list bool) : list (line Z) :=
 Definition ctl_run (q_skip cw : bool) (sc0 : sc) (cs : list comp) (blanks : list bool) : ls Z mx :=
   let recs := recs_of blanks in
   let c := mkCfg sc0 false (end_of Z recs) cw true false true in
-  collect Z mx (ctl_m c q_skip cs) c (mkMx [] false) recs.
+  collect Z mx (ctl_m c q_skip cs) c (mkMx [] false true []) recs.
